@@ -314,6 +314,7 @@ int run(std::istream &in)
     } else if (c == "forcecb") {
       px->cb_colvar = t[1] == "off" ? "" : t[1];
       px->cb_force = t.size() > 2 ? todbl(t[2]) : 0.0;
+      px->cb_energy = t.size() > 3 ? t[3] : "";
     } else if (c == "rngseed") {
       px->rng.seed(strtoull(t[1].c_str(), 0, 10));
     } else if (c == "gausszero") {
